@@ -59,15 +59,17 @@ Theorem C07_guards_mh_accept_structure : forall vh ofp s m,
   accept vh ofp s m =
   match h_rt s with
   | Running =>
-      if mh_accept_guard_model s (Some m) then s
-      else if m_round m =? 0 then abort s (Some ([m_from m], EAbortNotice))
-      else let s1 := store s m in
-           if negb (h_cur s1 =? m_round m) then s1
-           else match (if m_bcast m then verify_bcast s1 m else verify_p2p s1 m) with
-                | VOk => finalize vh ofp (fuel_of s1) s1
-                | VBad => abort s1 (Some ([m_from m], EVerify))
-                | VHash => abort s1 (Some ([], EBroadcastHash))
-                end
+      recover_abort      (* "defer h.recoverToAbort()": see C17_guards_preambles *)
+        (if mh_accept_guard_model s (Some m) then s
+         else if m_round m =? 0 then abort s (Some ([m_from m], EAbortNotice))
+         else let s1 := store s m in
+              if negb (h_cur s1 =? m_round m) then s1
+              else match (if m_bcast m then verify_bcast s1 m else verify_p2p s1 m) with
+                   | VOk => finalize vh ofp (fuel_of s1) s1
+                   | VBad => abort s1 (Some ([m_from m], EVerify))
+                   | VHash => abort s1 (Some ([], EBroadcastHash))
+                   | VPanic => raise_panic s1
+                   end)
   | _ => s
   end.
 Proof. exact mh_accept_guard_is_models. Qed.
@@ -138,7 +140,7 @@ Print Assumptions C07_guards_atoms_known.
 (* party 0 of 3, protocol 9, session 7, in round 2 of 3 (round 2 broadcast, round 3 p2p) *)
 Definition ex_shape := mkShape 3 (fun r => Nat.eqb r 2) (fun r => if Nat.eqb r 3 then P2PAll else NoP2P).
 Definition ex_h : hstate := mkH 0 3 7 9 ex_shape 2 [2; 1] [] [] [(1, 5%N)] None false [] 0 0 Running.
-Definition ex_m (from rnd : nat) (bv : N) : msg := mkMsg 7 9 from None rnd true true bv 11 true.
+Definition ex_m (from rnd : nat) (bv : N) : msg := mkMsg 7 9 from None rnd true true bv 11 true NoPanic.
 
 Example C07_guards_ex_accepts :
   geval (alookup (env_mh ex_h (Some (ex_m 1 2 5)))) go_MultiHandler_canAccept = Some true /\
@@ -183,7 +185,7 @@ Example C07_guards_mutant_dropped_term :
 Proof. vm_compute. discriminate. Qed.
 (* two checks of canAccept joined by || instead of &&: a message of another session gets through *)
 Example C07_guards_mutant_or :
-  let m := mkMsg 8 9 1 None 2 true true 5 11 true in
+  let m := mkMsg 8 9 1 None 2 true true 5 11 true NoPanic in
   geval (alookup (env_mh ex_h (Some m)))
         (GAnd (GNot (GAtom "msg == nil")) (GAnd (GAtom "msg.IsFor(r.SelfID())")
           (GOr (GNot (GAtom "msg.Protocol != r.ProtocolID()")) (GAtom "bytes.Equal(msg.SSID, r.SSID())"))))
